@@ -577,12 +577,19 @@ def replay_states(inputs):
     bad = []
     try:
         if inputs.get('auto_radius'):
-            tr = Transitions.from_trajectory(trajectory=traj, sites=sites, floating_specie='Li', site_inner_fraction=f)
-            got = tr.states
             from gemdat.transitions import _compute_site_radius
             from gemdat.metrics import TrajectoryMetrics
             r = _compute_site_radius(trajectory=traj, sites=sites, vibration_amplitude=TrajectoryMetrics(diff).vibration_amplitude())
             radius = {'': float(r)}
+            try:
+                tr = Transitions.from_trajectory(trajectory=traj, sites=sites, floating_specie='Li', site_inner_fraction=f)
+                got = tr.states
+            except ValueError as e_:
+                if 'need at least one array' not in str(e_):
+                    raise
+                # no atom ever changes its state: the event builder has nothing to stack and the public route raises (not this property); the
+                # states themselves are still checked, computed with the automatic radius
+                got = _calculate_atom_states(sites=sites, trajectory=diff, site_radius=radius, site_inner_fraction=1.0)
             from verif.native.synth import brute_mindist
             ds = brute_mindist(lat.matrix, sites.frac_coords, sites.frac_coords, rng=3)
             md = ds[np.triu_indices_from(ds, k=1)].min()
@@ -636,6 +643,7 @@ def replay_states(inputs):
     T, N, S = d.shape
     eps = 1e-4  # float32 tolerance of the KD-tree around the sphere surface
     nbad = 0
+    tree_pairs, known_hits = {}, []
     for t in range(T):
         for a in range(N):
             Rk = np.array([radius.get(labels[k], radius.get('', None)) if (labels[k] in radius or '' in radius) else np.nan for k in range(S)], dtype=float) * f_eff
@@ -643,13 +651,43 @@ def replay_states(inputs):
             maybe = [k for k in range(S) if not np.isnan(Rk[k]) and d[t, a, k] <= Rk[k] + eps]
             g = got[t, a]
             ok = (g == -1 and not inside) or (g in maybe)
+            if not ok and g == -1 and inside:
+                # known finding C02-kdtree-degenerate-cell: if the periodic KD-tree, asked directly with these coordinates, does not return the pair
+                # either, the miss is the tree's (recorded finding, same call site), not a new defect of the state assignment
+                cut_ = float(np.nanmax(Rk)) / f_eff if f_eff else float(np.nanmax(Rk))
+                lost = True
+                for k_ in inside:
+                    key_ = round(float(Rk[k_]), 12)
+                    if key_ not in tree_pairs:
+                        tree_pairs[key_] = kdtree_direct_pairs(lat.matrix, pos, sites.frac_coords, Rk[k_], cut_)
+                    if (k_, t * N + a) in tree_pairs[key_]:
+                        lost = False
+                if lost:
+                    known_hits.append((t, a))
+                    continue
             if not ok:
                 nbad += 1
                 if len(bad) < 3:
                     bad.append(f'(t={t}, atom={a}): assigned {g}, sites strictly inside their sphere {inside}, distances {np.round(d[t, a], 3).tolist()}')
     if nbad:
         bad.append(f'{nbad} of {T * N} assignments contradict the brute-force minimum-image distances')
-    return {'reproduced': bool(bad), 'detail': f'lattice={np.round(lat.matrix, 3).tolist()} radius={radius} f={f}: ' + '; '.join(bad[:4])}
+    note = f' [{len(known_hits)} atom-frame(s) inside a sphere but lost by the periodic KD-tree itself: known finding C02-kdtree-degenerate-cell]' if known_hits else ''
+    return {'reproduced': bool(bad), 'detail': f'lattice={np.round(lat.matrix, 3).tolist()} radius={radius} f={f}: ' + '; '.join(bad[:4]) + note}
+
+
+def kdtree_direct_pairs(lat_matrix, positions_flat, site_frac, R, cutoff):
+    """What the periodic KD-tree of MDAnalysis answers when asked directly - no gemdat code involved: (site, flat atom-frame index) pairs within R.
+    Used only to tell an instance of the known finding C02-kdtree-degenerate-cell (the tree itself loses the pair) from a defect of the library
+    under test (the tree finds the pair, the reported state does not show it)."""
+    import numpy as np
+    from MDAnalysis.lib.pkdtree import PeriodicKDTree
+    from pymatgen.core import Lattice
+    lat = Lattice(np.asarray(lat_matrix, dtype=float))
+    tl = Lattice.from_parameters(*lat.parameters, vesta=True)
+    tree = PeriodicKDTree(box=np.array(lat.parameters, dtype=np.float32))
+    tree.set_coords(tl.get_cartesian_coords(np.asarray(positions_flat, dtype=float).reshape(-1, 3)), cutoff=float(cutoff))
+    res = tree.search_tree(tl.get_cartesian_coords(np.asarray(site_frac, dtype=float).reshape(-1, 3)), float(R))
+    return {(int(i), int(j)) for i, j in np.asarray(res).reshape(-1, 2)}
 
 
 def replay_kdtree_skewed(inputs):
